@@ -268,7 +268,8 @@ ITEMS = location_types() + budget_types() + error_types() + [
          decreases='events@.len(), 1int',
          proofs=[
              dict(before='let mut element = capture_node(replay_as_dyn(&mut replay))?;', ghost=True, text='let ghost s1 = replay.rest();'),
-             dict(after='let mut element = capture_node(replay_as_dyn(&mut replay))?;', text='lemma_knode_bounds(s1, 0);'),
+             dict(after='let mut element = capture_node(replay_as_dyn(&mut replay))?;', text='lemma_knode_bounds(s1, 0); let k = knode(s1, 0).unwrap(); assert(s1 =~= events@.skip(1 + captured)); assert(0 <= k <= s1.len() && s1.len() == events@.len() - (1 + captured)); assert(s1.skip(k) =~= events@.skip(1 + captured + k)); captured = captured + k;'),
+             dict(after_re=r'let _ = replay\.next\(\)\?;\s*(?=loop)', ghost=True, text='let ghost mut captured: int = 0; assert(events@.len() >= 1 && replay.rest() =~= events@.skip(1));'),
              dict(before='let mut merged = Vec::new();', ghost=True, text='let ghost b0 = batches@;'),
              dict(before='merged.append(&mut nested);', ghost=True, text='let ghost e_before = merged@; let ghost n0 = nested@;'),
              dict(after='merged.append(&mut nested);', text='lemma_abs_entries_append(e_before, n0); lemma_pending_ok_append(e_before, n0);'),
@@ -277,6 +278,9 @@ ITEMS = location_types() + budget_types() + error_types() + [
          ],
          loops={
              1: dict(header=r'^loop$', invariant=[('bounded', 'replay.rest().len() < events@.len() && events@.len() <= i32::MAX && batches_ok(batches@)')],
+                     invariant_except_break=[('C03:every_element_of_a_merge_sequence_is_captured_and_expanded_none_is_skipped',
+                                              'captured >= 0 && 1 + captured <= events@.len() && replay.rest() =~= events@.skip(1 + captured)')],
+                     ensures=[('left_at_the_end_of_the_sequence', 'true')],
                      decreases='replay.rest().len()'),
              2: dict(header=r'^while let Some\(mut nested\) = batches\.pop\(\)$',
                      invariant=[('newest_first', 'abs_entries(merged@) + concat_rev(batches@) =~= concat_rev(b0)'),
